@@ -208,6 +208,26 @@ fn across_push_pop(rep: &mut Report) {
     }
 }
 
+/// no offered match rests on a subsumed row (top-level subsume and :subsume rewrites), under a scheduler exactly as
+/// under the built-in stepping
+fn subsumed_not_offered(rep: &mut Report) {
+    let p = "(datatype T (A) (B) (C) (G T) (H T))\n(relation Q (T))\n(ruleset r)\n(ruleset s)\n(rule ((= e (G x))) ((Q x)) :ruleset r :name \"pq\")\n(rewrite (H x) (G x) :subsume :ruleset s)\n(G (A))\n(G (B))\n(H (C))\n(subsume (G (A)))\n(run s 1)\n";
+    let mut eg = EGraph::default();
+    if !engine::run(&mut eg, p).is_ok() { rep.violate("correspondence", "c18-setup", "subsume scenario rejected".into(), json!({"program": p})); return; }
+    let mut builtin = eg.clone();
+    let log = Arc::new(Mutex::new(Log::default()));
+    let sid = eg.add_scheduler(Box::new(Sch { policy: Policy::All, step: 0, rng: Rng::new(1), vars: vec!["x"], log: log.clone() }));
+    let _ = eg.step_rules_with_scheduler(sid, "r");
+    let _ = builtin.step_rules("r");
+    rep.evaluations += 1; rep.note_nontrivial(&"subsumed-not-offered");
+    let offered: usize = log.lock().unwrap().offers.iter().filter(|o| o.0 == "pq").map(|o| o.1.len()).sum();
+    // live rows of G: (G (B)) and the (G (C)) produced by the subsuming rewrite; (G (A)) is subsumed
+    if offered != 2 { rep.violate("property", "c18-subsumed-offered", format!("rule `pq` over G was offered {offered} matches; G has exactly 2 rows that are not subsumed"), json!({"program": p})); }
+    if engine::run(&mut eg, "(check (Q (A)))").is_ok() { rep.violate("property", "c18-subsumed-offered", "the rule fired on the subsumed row (G (A)) under a scheduler".into(), json!({"program": p})); }
+    if !engine::run(&mut eg, "(check (Q (B)) (Q (C)))").is_ok() { rep.violate("property", "c18-match-lost", "matches on the non-subsumed rows of G were not applied".into(), json!({"program": p})); }
+    if engine::canon(&eg) != engine::canon(&builtin) { rep.violate("property", "c18-all-differs-from-builtin", "with subsumed rows present the choose-all scheduler and the built-in stepping differ".into(), json!({"program": p})); }
+}
+
 /// an error raised mid-step must leave rulesets and schedulers in place
 fn error_mid_step(rep: &mut Report) {
     let p = "(relation P (i64))\n(relation Q (i64))\n(ruleset r)\n(rule ((P x) (< x 0)) ((panic \"neg\")) :ruleset r :name \"boom\")\n(rule ((P x)) ((Q x)) :ruleset r :name \"pq\")\n(P -1)\n";
@@ -231,6 +251,7 @@ pub fn run(ctx: &Ctx) -> Report {
     fair_saturation(&mut rep, &mut rng, ctx.n(8, 100));
     union_between(&mut rep);
     across_push_pop(&mut rep);
+    subsumed_not_offered(&mut rep);
     error_mid_step(&mut rep);
     rep
 }
